@@ -1645,4 +1645,88 @@ theorem thm_removed_never_selected_sticky (s : State) (c a st : Nat) (ops : List
   · exact hn l hl b (findSticky_spec hf).1
   · exact hn l hl b (mem_candidates hc).1
 
+/-! ### one proxied request = inc, (succeed | fail), dec on the selected backend -/
+
+theorem getElem?_updAt (f : Backend → Backend) (i : Nat) (l : List Backend) :
+    (updAt f i l)[i]? = (l[i]?).map f := by
+  induction l generalizing i with
+  | nil => cases i <;> simp [updAt]
+  | cons b t ih =>
+    cases i with
+    | zero => simp [updAt]
+    | succ i => simp [updAt, ih]
+
+theorem updAt_updAt (f g : Backend → Backend) (i : Nat) (l : List Backend) :
+    updAt g i (updAt f i l) = updAt (fun b => g (f b)) i l := by
+  induction l generalizing i with
+  | nil => cases i <;> simp [updAt]
+  | cons b t ih =>
+    cases i with
+    | zero => simp [updAt]
+    | succ i => simp [updAt, ih]
+
+theorem onBackend_hit {s : State} {c i : Nat} {l : BList} {b : Backend} (f : Backend → Backend) (g : Backend → Out)
+    (hg : s.get c = some l) (hb : l.backends[i]? = some b) :
+    (onBackend s c i f g).1 = s.put c { l with backends := updAt f i l.backends } := by
+  simp [onBackend, hg, hb]
+
+theorem map_ctr_updAt_at {f : Backend → Backend} {i : Nat} {l : List Backend} {b : Backend}
+    (hb : l[i]? = some b) (hf : ctr (f b) = ctr b) : (updAt f i l).map ctr = l.map ctr := by
+  induction l generalizing i with
+  | nil => simp at hb
+  | cons x t ih =>
+    cases i with
+    | zero => simp at hb; subst hb; simp [updAt, hf]
+    | succ i => simp only [List.getElem?_cons_succ] at hb; simp [updAt, ih hb]
+
+/-- open, then the connect outcome `r` on the retry policy, then close: counts as before -/
+theorem cycle_ctr (b : Backend) (r : Retry → Retry) (hn : b.status = .normal) :
+    ctr (decConn { (incConn b).1 with retry := r (incConn b).1.retry }).1 = ctr b := by
+  cases b
+  simp only at hn
+  subst hn
+  simp [incConn, decConn, decN, ctr]
+
+theorem onBackend_get {s : State} {c i : Nat} {l : BList} {b : Backend} (f : Backend → Backend) (g : Backend → Out)
+    (hg : s.get c = some l) (hb : l.backends[i]? = some b) :
+    (onBackend s c i f g).1.get c = some { l with backends := updAt f i l.backends } ∧
+    (onBackend s c i f g).1.now = s.now := by
+  rw [onBackend_hit f g hg hb, get_put]; simp [State.put]
+
+theorem connect_cycle_balanced (s : State) (c i : Nat) (l : BList) (b : Backend) (mid : Op)
+    (hg : s.get c = some l) (hb : l.backends[i]? = some b) (hn : b.status = .normal)
+    (hmid : (∃ w, mid = .fail c i w) ∨ mid = .succeed c i) :
+    ctrsOf (step (step (step s (.inc c i)).1 mid).1 (.dec c i)).1 c = ctrsOf s c := by
+  let fI : Backend → Backend := fun x => (incConn x).1
+  let fD : Backend → Backend := fun x => (decConn x).1
+  let l1 : BList := { l with backends := updAt fI i l.backends }
+  have h1 := onBackend_get (s := s) fI (fun x => Out.count (incConn x).2) hg hb
+  have hb1 : l1.backends[i]? = some (fI b) := by simp [l1, getElem?_updAt, hb]
+  obtain ⟨r, h2⟩ : ∃ r : Retry → Retry,
+      (step (step s (.inc c i)).1 mid).1.get c =
+        some { l1 with backends := updAt (fun x => { x with retry := r x.retry }) i l1.backends } := by
+    rcases hmid with ⟨w, hw⟩ | hw
+    · subst hw
+      refine ⟨fun rt => rt.fail (step s (.inc c i)).1.now w, ?_⟩
+      have := (onBackend_get (s := (step s (.inc c i)).1) (fun x => { x with retry := x.retry.fail (step s (.inc c i)).1.now w })
+        (fun _ => Out.ok) h1.1 hb1).1
+      simp only [step] at this ⊢
+      exact this
+    · subst hw
+      refine ⟨fun rt => rt.succeed (step s (.inc c i)).1.now, ?_⟩
+      have := (onBackend_get (s := (step s (.inc c i)).1) (fun x => { x with retry := x.retry.succeed (step s (.inc c i)).1.now })
+        (fun _ => Out.ok) h1.1 hb1).1
+      simp only [step] at this ⊢
+      exact this
+  let fR : Backend → Backend := fun x => { x with retry := r x.retry }
+  let l2 : BList := { l1 with backends := updAt fR i l1.backends }
+  have hb2 : l2.backends[i]? = some (fR (fI b)) := by simp [l2, getElem?_updAt, hb1]
+  have h3 := (onBackend_get (s := (step (step s (.inc c i)).1 mid).1) fD (fun x => Out.count (decConn x).2) h2 hb2).1
+  have h3' : (step (step (step s (.inc c i)).1 mid).1 (.dec c i)).1.get c =
+      some { l2 with backends := updAt fD i l2.backends } := by simpa only [step] using h3
+  simp only [ctrsOf, h3', hg, Option.map_some, Option.getD_some]
+  show (updAt fD i (updAt fR i (updAt fI i l.backends))).map ctr = l.backends.map ctr
+  rw [updAt_updAt, updAt_updAt]
+  exact map_ctr_updAt_at hb (cycle_ctr b r hn)
+
 end Sozu.Backends
